@@ -6,4 +6,7 @@ set -e
 copy=/tmp/verif-ns/repo
 mkdir -p "$copy"
 rsync -a --delete --exclude target /repo/ "$copy"/
+# builds of the (patched) copy must not share a target dir with builds of the real /repo: cargo
+# compares mtimes, and the real files are older than artifacts built from the patched copy
+export VERIF_TARGET_DIR=/verif/target-ns
 exec unshare -m sh -c 'mount --bind "$0" /repo && shift 0 && exec "$@"' "$copy" "$@"
